@@ -440,6 +440,13 @@ def slice_name_lookup(ctx):
                ' '.join(f'(S:{hx(o)} I:{70 + j})' for j, o in enumerate(odd) if r.random() < 0.7))
         nm = r.choice(['%user.name%', '%user.tags%', '%a.b%', '%a%', '%a b%', '%a+b%', '%order.0%', '%user.name.upper%', '%user%', 'user', '%b%', '%order.1%'] + odd)
         src = r.choice([nm, f'{nm} + 1', f'len({nm})', f'x = {nm}; x', f'try_apply(w => {nm}, 0)', f'[{nm}, a]', f'f = v => {nm}; f(1)', f'{nm} = 5; {nm}'])
+        if r.random() < 0.2:
+            # words the lexer treats as keywords (also the reserved-but-unused ones) and names that occur only inside string
+            # literals: the host binds them, the program must still not be able to read them
+            kw = r.choice(['for', 'while', 'elif', 'break', 'continue', 'def', 'raise', 'and', 'else', 'del', 'None', 'True'])
+            src = r.choice([f'"yes" if {kw} else "no"', f'x = {kw}', f'[{kw}]', f'{kw}', f'try_apply(w => {kw}, 0)', f'len({kw})',
+                            '"Hello, %user% and %a%!"', '"%a%"', "'%a b% %b%'", '"100% %a% 50%"', 'r"%a%"', 'x = "%user.name%"; x', '"a" + "%b%"'])
+            ent += ' ' + ' '.join(f'(S:{hx(w)} I:{90 + j})' for j, w in enumerate(['for', 'while', 'elif', 'break', 'continue', 'def', 'raise', 'b%']))
         cases.append((gens2.eval_line(src, ent), src))
     return _eval_slice('name_lookup', cases, '%...% names with dots / blanks / operators whose parts are bound by the host, in every '
                        'syntactic role; result, error class and names-after compared')
